@@ -2,13 +2,13 @@
 import typedvrl as tv
 
 ID = "C02"
-THEOREMS = ['C02_or_undefined_refuted', 'C02_insert_coerce_refuted', 'C02_remove_shift_refuted', 'C02_closure_effect_refuted', 'C02_nan_exception_typed']
+THEOREMS = ['C02_or_undefined_refuted', 'C02_insert_coerce_refuted', 'C02_remove_shift_refuted', 'C02_closure_effect_refuted', 'C02_nan_exception_typed', 'C02_statement_never_errors_partial', 'C02_straightline_never_fails_partial']
 MANIFEST = {
     "level": "proof",
     "technique": "Coq proof on a hand model of Expression::type_info (Model/TypeInfo.v) against the Core-VRL evaluator + "
                  "differential correspondence on compiled programs (final_type_info, runs)",
-    "text": "",
-    "note": "",
+    "text": "Closed Coq theorems: a statement of the straight-line fragment (effect-free expressions - literals, variables, queries, arrays, objects, ==, !=, ! on a boolean-typed operand, exists - and their assignments to variables, paths below known variables and event/metadata paths), evaluated in any run-time state conforming to the compiler's type state, never ends in an error, abort, return or panic (for every function table), and every straight-line program of such statements succeeds on every conforming event and metadata. The NaN exception is modelled (constant float arithmetic producing NaN is typed fallible) and exhibited. The model is a Gallina transcription of every Expression::type_info / resolve_constant impl of the Core-VRL constructs (Model/TypeInfo.v over the Kind model of C19) tied to the code by running each generated program through the compiler and runtime (harness `typed`: final_type_info kinds, fallibility, returns, run outcome, final event/metadata, Rust-side membership) and through type_info/eval in Coq. The oracle - a program reported non-fallible run on a conforming input must succeed, NaN excepted - runs on every generated program, including if/else, short-circuit and arithmetic operators, ??, ok/err assignment, blocks, closures, del and typed stdlib calls with and without `!`. On the unchanged tree the property is FALSE: programs such as `.a = 1; x = (.a.q || \"s\"); x && true`, `.x = [1,\"a\",true,7]; del(.x[0]); .x[3] + 1` or `.a = 1; for_each([1]) -> |k,v| { .a = \"s\"; null }; .a + 1` compile as infallible and fail at runtime (refuted theorems + known findings).",
+    "note": "Partial: the never-fails theorem covers the straight-line fragment only; operators that can fail (arithmetic, !, function calls under a conformance hypothesis fn_sound F T) are NOT proved - they are covered by correspondence + oracle search. Hypothesis of the generic theorem: == and != return booleans (discharged for the instantiated table). Trusted: Coq kernel + vm_compute, the hand-written models tied by correspondence, the printer/AST codec, harness typed.rs, Python generator. No axioms.",
     "design_ref": "DESIGN.md section 5 C02",
 }
 
